@@ -811,6 +811,27 @@ func (r *simRun) halfEvent(j int, cutSeed int, kind string, arg string) {
 	r.model = append(r.model, fmt.Sprintf("S %d %s", j, hx(reply[:cut])))
 }
 
+// moreHalf: a further part of a reply that is already partly with the proxy, still not all of it
+func (r *simRun) moreHalf(j int, cutSeed int) {
+	b := r.backends[j]
+	h := b.half
+	if h == nil || b.closed || !b.peer.vc.Opened() {
+		return
+	}
+	rest := len(h.reply) - h.cut
+	if rest < 2 {
+		r.finishHalf(j)
+		return
+	}
+	n := 1 + cutSeed%(rest-1)
+	r.tags["reply-cut-twice"] = true
+	if err := r.env.Feed(b.peer, h.reply[h.cut:h.cut+n]); err != nil {
+		r.tags["feed-error"] = true
+	}
+	r.model = append(r.model, fmt.Sprintf("S %d %s", j, hx(h.reply[h.cut:h.cut+n])))
+	h.cut += n
+}
+
 // finishHalf: the rest of a reply whose first part is already with the proxy
 func (r *simRun) finishHalf(j int) {
 	b := r.backends[j]
@@ -1591,6 +1612,16 @@ func (r *simRun) apply(ev string) (alive bool) {
 		j, _ := strconv.Atoi(f[1])
 		if j < len(r.backends) {
 			r.finishHalf(j)
+		}
+	case "g":
+		// g <backend> <cut>: one more part of a reply that is already partly delivered
+		j, _ := strconv.Atoi(f[1])
+		cut := 0
+		if len(f) > 2 {
+			cut, _ = strconv.Atoi(f[2])
+		}
+		if j < len(r.backends) {
+			r.moreHalf(j, cut)
 		}
 	case "X":
 		j, _ := strconv.Atoi(f[1])
